@@ -14,7 +14,7 @@ struct Options
     double run_timeout_s{300};  //!< a single run longer than this is a hang
     int workers{16};
     int repeat{1};  //!< 2 = determinism mode (each plan twice)
-    int shrink_tries{400};
+    int shrink_tries{400};  // crash classes use a tenth of this
     double shrink_budget_s{120};
     std::string evidence;
     std::string verif_dir{"/verif"};
